@@ -215,6 +215,31 @@ pub fn run_check(ctx: &Ctx) -> i32 {
             }
         });
     };
+    // one configuration capturing everything (incl. on_end_tag on every element), deeper inputs
+    {
+        let one = &cfgs[1..2];
+        let l1only = Levels { l1: true, l2_max_len: 0, bytewise: false, empties: false };
+        sweep_space(ctx, "(a) F<=3 x all-capturing config x L0,L1", Space::Frags { k, max: 3 }, &|i, raw| {
+            let mut scheds = vec![];
+            for p in one {
+                schedules(raw.len(), l1only, &mut scheds);
+                for s in std::iter::once(&Sched::whole()).chain(scheds.iter()) {
+                    let (m, calls, nt) = check_bytes(p, raw, s);
+                    ctx.exec(calls);
+                    ctx.validated(1);
+                    if nt {
+                        ctx.nontrivial.insert(digest(raw));
+                    }
+                    if let Some(msg) = m {
+                        let case = json!({"kind": "bytes", "cfg": p.cfg, "input_hex": hex(raw), "input_lossy": lossy(raw), "sched": s});
+                        let c2 = case.clone();
+                        ctx.violation(msg, case, &|| replay(&c2));
+                    }
+                }
+            }
+            let _ = i;
+        });
+    }
     if quick {
         sweep("(a) B16<=5 x 7 configs x L0,L1,LB,LE", Space::Bytes { max: 5 });
         sweep("(a) F<=2 x 7 configs x L0,L1,LB,LE", Space::Frags { k, max: 2 });
